@@ -28,12 +28,15 @@ VARIABLES upos,     \* items handed out by U
           kind,     \* kind[h]: "borrow" | "scope"
           par,      \* par[h]: 0 (U) or the handle it wraps
           alive,    \* alive[h]: the handle's generator has not ended
+          shut,     \* shut[h]: the handle was ended explicitly (aclose / a closing tool / leaving its
+                    \*          scope): only then are asend/athrow cut off from the underlying iterator
           nops, last
-vars == <<upos, ustop, uclosed, nh, kind, par, alive, nops, last>>
-View == <<upos, ustop, uclosed, nh, kind, par, alive, nops>>
+vars == <<upos, ustop, uclosed, nh, kind, par, alive, shut, nops, last>>
+View == <<upos, ustop, uclosed, nh, kind, par, alive, shut, nops>>
 
 Init == /\ upos = 0 /\ ustop = 0 /\ uclosed = 0 /\ nh = 0
         /\ kind = [h \in H |-> "borrow"] /\ par = [h \in H |-> 0] /\ alive = [h \in H |-> FALSE]
+        /\ shut = [h \in H |-> FALSE]
         /\ nops = 0 /\ last = <<"init", 0, 0, "-">>
 
 Step == nops < MaxOps /\ nops' = nops + 1
@@ -51,7 +54,7 @@ New(k, p) ==
   /\ kind' = [kind EXCEPT ![nh + 1] = k] /\ par' = [par EXCEPT ![nh + 1] = p]
   /\ alive' = [alive EXCEPT ![nh + 1] = TRUE]
   /\ last' = <<k, nh + 1, p, "-">>
-  /\ UNCHANGED <<upos, ustop, uclosed>>
+  /\ UNCHANGED <<upos, ustop, uclosed, shut>>
 
 Borrow(p) == AllowBorrow /\ New("borrow", p)
 \* scopes nest: a new scope wraps U, a borrowed handle, or the innermost scope's handle
@@ -80,12 +83,13 @@ Next(h) ==
   /\ LET r == Pull(h, upos, ustop, alive) IN
      /\ upos' = r.upos /\ ustop' = r.ustop /\ alive' = r.alive
      /\ last' = <<"next", h, r.item, "-">>
-  /\ UNCHANGED <<uclosed, nh, kind, par>>
+  /\ UNCHANGED <<uclosed, nh, kind, par, shut>>
 
 \* aclose() on a handle: ends a borrowed handle, does nothing to a scoped one
 Aclose(h) ==
   /\ Step /\ h \in 1..nh
   /\ alive' = IF kind[h] = "borrow" THEN [alive EXCEPT ![h] = FALSE] ELSE alive
+  /\ shut' = IF kind[h] = "borrow" THEN [shut EXCEPT ![h] = TRUE] ELSE shut
   /\ last' = <<"aclose", h, 0, "-">>
   /\ UNCHANGED <<upos, ustop, uclosed, nh, kind, par>>
 
@@ -103,18 +107,19 @@ Tool(h, j, over) ==
   /\ LET r == Pulls(h, j + over, upos, ustop, alive) IN
      /\ upos' = r.upos /\ ustop' = r.ustop
      /\ alive' = IF kind[h] = "borrow" THEN [r.alive EXCEPT ![h] = FALSE] ELSE r.alive
+     /\ shut' = IF kind[h] = "borrow" THEN [shut EXCEPT ![h] = TRUE] ELSE shut
      /\ last' = <<"tool", h, j, IF over = 0 THEN "islice" ELSE "zip">>
   /\ UNCHANGED <<uclosed, nh, kind, par>>
 
 \* asend() of an open handle goes to U directly (U is an async generator: it advances)
 Send(h) ==
   /\ USend /\ Step /\ h \in 1..nh /\ par[h] = 0
-  /\ IF alive[h] /\ uclosed = 0 /\ upos < DataLen
-     THEN /\ upos' = upos + 1 /\ last' = <<"send", h, upos + 1, "-">> /\ UNCHANGED <<ustop, alive>>
-     ELSE IF alive[h]
-     THEN /\ ustop' = ustop + 1 /\ last' = <<"send", h, 0, "-">> /\ UNCHANGED <<upos, alive>>
-     ELSE /\ last' = <<"send", h, 0, "-">> /\ UNCHANGED <<upos, ustop, alive>>    \* closed: U sees nothing
-  /\ UNCHANGED <<uclosed, nh, kind, par>>
+  /\ IF ~shut[h] /\ uclosed = 0 /\ upos < DataLen
+     THEN /\ upos' = upos + 1 /\ last' = <<"send", h, upos + 1, "-">> /\ UNCHANGED ustop
+     ELSE IF ~shut[h]
+     THEN /\ ustop' = ustop + 1 /\ last' = <<"send", h, 0, "-">> /\ UNCHANGED upos
+     ELSE /\ last' = <<"send", h, 0, "-">> /\ UNCHANGED <<upos, ustop>>    \* cut off: U sees nothing
+  /\ UNCHANGED <<uclosed, nh, kind, par, alive, shut>>
 
 \* leaving the innermost `async with scoped_iter(...)` block (normally, by exception or by
 \* cancellation): the handle ends; then parent.aclose()
@@ -124,6 +129,7 @@ ExitScope(how) ==
      /\ alive' = [x \in H |-> IF x = h THEN FALSE
                               ELSE IF x = p /\ kind[p] = "borrow" THEN FALSE ELSE alive[x]]
      /\ uclosed' = IF p = 0 THEN uclosed + 1 ELSE uclosed
+     /\ shut' = [x \in H |-> shut[x] \/ x = h \/ (x = p /\ kind[p] = "borrow")]
      /\ last' = <<"exit", h, 0, how>>
   /\ UNCHANGED <<upos, ustop, nh, kind, par>>
 
@@ -146,7 +152,7 @@ InOrder == upos <= DataLen
 \* a handle that ended stays ended and delivers nothing (by construction of Pull)
 
 EmitEdge == EdgeFile = "" \/
-  CSVWrite("%1$s", <<ToJson([f |-> [up |-> upos, us |-> ustop, uc |-> uclosed, nh |-> nh, kind |-> kind, par |-> par, alive |-> alive, n |-> nops],
+  CSVWrite("%1$s", <<ToJson([f |-> [up |-> upos, us |-> ustop, uc |-> uclosed, nh |-> nh, kind |-> kind, par |-> par, alive |-> alive, shut |-> shut, n |-> nops],
                              a |-> last',
-                             t |-> [up |-> upos', us |-> ustop', uc |-> uclosed', nh |-> nh', kind |-> kind', par |-> par', alive |-> alive', n |-> nops']])>>, EdgeFile)
+                             t |-> [up |-> upos', us |-> ustop', uc |-> uclosed', nh |-> nh', kind |-> kind', par |-> par', alive |-> alive', shut |-> shut', n |-> nops']])>>, EdgeFile)
 =============================================================================
